@@ -48,12 +48,12 @@ Proof.
   - destruct (negb (transport s)); [split; reflexivity|]. destruct (po_wants_ack o); unfold new_request, new_id_only; cbv zeta beta iota;
       destruct (send_req cfg _ _) as [o1 ok]; destruct ok; split; reflexivity.
   - destruct (negb (transport s)); [split; reflexivity|]. unfold new_request. cbv zeta beta iota.
-    destruct (send_req cfg _ _) as [o1 ok]. split; reflexivity.
+    destruct (send_req cfg _ _) as [o1 ok]. destruct ok; split; reflexivity.
   - destruct (negb (transport s)); [split; reflexivity|]. unfold new_request. cbv zeta beta iota.
-    destruct (send_req cfg _ _) as [o1 ok]. split; reflexivity.
+    destruct (send_req cfg _ _) as [o1 ok]. destruct ok; split; reflexivity.
   - destruct (reg_id_of s h) as [regid|]; [|split; reflexivity]. destruct (assoc regid (regs s)) as [h'|]; [|split; reflexivity].
     destruct (negb (h' =? h)); [split; reflexivity|]. destruct (negb (transport s)); [split; reflexivity|].
-    unfold new_request. cbv zeta beta iota. destruct (send_req cfg _ _) as [o1 ok]. split; reflexivity.
+    unfold new_request. cbv zeta beta iota. destruct (send_req cfg _ _) as [o1 ok]. destruct ok; split; reflexivity.
 Qed.
 
 Lemma react_tq : forall cfg s f, topen (fst (react cfg s f)) = topen s /\ queue (fst (react cfg s f)) = queue s.
@@ -122,7 +122,7 @@ Proof.
   destruct (sub_id_of s h) as [subid|]; [|apply QQ_refl]. destruct (negb (memN h _)); [apply QQ_refl|].
   destruct (negb (transport s)); [apply QQ_refl|].
   destruct (remove1 h match assoc subid (subs s) with Some l => l | None => [] end) as [|x rest'].
-  + unfold new_request. cbv zeta beta iota. destruct (send_req cfg _ _) as [o1 ok]. apply QQ_same; reflexivity.
+  + unfold new_request. cbv zeta beta iota. destruct (send_req cfg _ _) as [o1 ok]. destruct ok; apply QQ_same; reflexivity.
   + match goal with |- context [complete fl cfg ?S ?F ?R] =>
       pose proof (QQ_complete fl cfg S F R) as Hc; destruct (complete fl cfg S F R) as [s2 o2] end.
     simpl in *. eapply QQ_from; [| |exact Hc]; reflexivity.
